@@ -11,6 +11,7 @@ import (
 	"sync"
 
 	"github.com/gookit/rux"
+	"github.com/gookit/rux/pkg/handlers"
 )
 
 func init() { Monitors["C17"] = runC17 }
@@ -124,7 +125,7 @@ func c17Path(r *rand.Rand, prefix string, t *c17Tree) string {
 func runC17(e *Env) {
 	// an application-wide path variable with the name StaticFiles uses for its own, stricter one
 	rux.SetGlobalVar("file", `[\w.-]+`)
-	e.Rule = "a sandbox tree (root with css/js/txt files, nested directories, a hidden file, files whose names end in the letters of an allowed extension without the dot; next to the root: secrets with and without allowed extensions, sibling directories rootx and root.bak, a same-named a.css, index.html pages) - every outside file carries a canary token; routers with StaticDir, StaticFiles (css|js, css), StaticFS(http.Dir), StaticFile under prefixes /s and /assets/v1 (also registered inside a group), the root spelled absolutely or relative to the working directory ('' and '.'), with/without UseEncodedPath and StrictLastSlash; request paths from a grammar of hostile segments (.., ., empty, %2e%2e, ..%2f, %2F, back-slashes, %00, NUL, trailing dots/blanks, case variants, absolute paths, over-long ../ chains, names of outside files), sent both as raw URL.Path (no client-side cleaning) and as escaped request targets parsed like a server. Oracle: no response body contains a canary or the name of an outside file; a 200 body that is not a directory listing equals a file under the root byte for byte; StaticFiles answers 200 only when the matched path ends in '.'+allowed extension; StaticFile returns only the configured file; no panic. Non-trivial: a path containing a dot-dot/encoded/absolute component or an outside name; distinct by (configuration, path). A second root is the dot-directory root/.pub (spelled absolutely or relatively) next to a decoy directory root/pub with same-named canary files; a global path variable named file is registered; segments with encoded ? and # behind forbidden file names; a file served by StaticFiles must itself carry an allowed extension. A third of the routers have a route cache of two entries and a second StaticFiles mount (/zz) with the other root; after the hostile requests: a file of the mount under test, two files of /zz, the first again. Every response must reach the writer as exactly one WriteHeader before any body byte. StaticFiles routers also have /legacy/{file}, re-dispatched internally to <prefix>/<file>.css (the extension filter applies to what is served). Relative dot-directory roots are mounted after a StaticDir of the similarly named decoy directory pub."
+	e.Rule = "a sandbox tree (root with css/js/txt files, nested directories, a hidden file, files whose names end in the letters of an allowed extension without the dot; next to the root: secrets with and without allowed extensions, sibling directories rootx and root.bak, a same-named a.css, index.html pages) - every outside file carries a canary token; routers with StaticDir, StaticFiles (css|js, css), StaticFS(http.Dir), StaticFile under prefixes /s and /assets/v1 (also registered inside a group), the root spelled absolutely or relative to the working directory ('' and '.'), with/without UseEncodedPath and StrictLastSlash; request paths from a grammar of hostile segments (.., ., empty, %2e%2e, ..%2f, %2F, back-slashes, %00, NUL, trailing dots/blanks, case variants, absolute paths, over-long ../ chains, names of outside files), sent both as raw URL.Path (no client-side cleaning) and as escaped request targets parsed like a server. Oracle: no response body contains a canary or the name of an outside file; a 200 body that is not a directory listing equals a file under the root byte for byte; StaticFiles answers 200 only when the matched path ends in '.'+allowed extension; StaticFile returns only the configured file; no panic. Non-trivial: a path containing a dot-dot/encoded/absolute component or an outside name; distinct by (configuration, path). A second root is the dot-directory root/.pub (spelled absolutely or relatively) next to a decoy directory root/pub with same-named canary files; a global path variable named file is registered; segments with encoded ? and # behind forbidden file names; a file served by StaticFiles must itself carry an allowed extension. A third of the routers have a route cache of two entries and a second StaticFiles mount (/zz) with the other root; after the hostile requests: a file of the mount under test, two files of /zz, the first again. Every response must reach the writer as exactly one WriteHeader before any body byte. StaticFiles routers also have /legacy/{file}, re-dispatched internally to <prefix>/<file>.css (the extension filter applies to what is served). A fifth of the routers have pkg/handlers.PanicsHandler in front and an /export route that writes private bytes and panics; it is requested before every checked request. Relative dot-directory roots are mounted after a StaticDir of the similarly named decoy directory pub."
 	e.Assumptions = []string{
 		"symlinks inside the root pointing outside are not part of the statement's tree (http.Dir follows them by design)",
 		"directory listings (FileServer) are allowed as long as they list nothing outside the root",
@@ -169,6 +170,17 @@ func runC17(e *Env) {
 			t.Count("requests.router_with_route_cache_and_second_mount", 1)
 		}
 		router := rux.New(opts...)
+		withRecovery := chance(r, 1, 5)
+		if withRecovery {
+			// the stock recovery middleware in front of everything, and an export endpoint of the application
+			// that fails half way through private data; it is requested before every checked request
+			router.Use(handlers.PanicsHandler())
+			router.GET("/export", func(c *rux.Context) {
+				_, _ = c.Resp.Write([]byte(c17Canary + " private export, first half"))
+				panic("export failed half way")
+			})
+			t.Count("requests.after_a_recovered_panic_of_another_route", 1)
+		}
 		staticFileTarget := "c.txt"
 		// the root spelled absolutely or relative to the working directory (= the sandbox root)
 		rootSpelling := pick(r, []string{tree.Root, tree.Root, "", ".", "./"})
@@ -276,6 +288,9 @@ func runC17(e *Env) {
 			}
 			// (the static handlers rewrite Request.URL.Path: keep what was asked for)
 			askedPath, askedEscaped := req.URL.Path, req.URL.EscapedPath()
+			if withRecovery {
+				_, _, _ = Serve(router, NewReq("GET", "/export"))
+			}
 			rec, pv, panicked := Serve(router, req)
 			if panicked {
 				t.Fail("servehttp-panics", "%s on %s(%s): panicked: %v", cur, kind, prefix, pv)
